@@ -116,6 +116,10 @@ func GenFunc(prog *Prog, fn *ssa.Function, fc *FuncContract) *VC {
 		}
 	}
 	for _, cs := range fc.CallSites {
+		if cs.Hits > 0 && cs.C.Applied == 0 {
+			vc.errorf("callsite %s %q: the clause could be evaluated at no call of %s (stale clause: %d call(s) skipped)", cs.Callee, cs.C.Text, cs.Callee, cs.C.Skipped)
+		}
+		cs.C.Applied, cs.C.Skipped = 0, 0
 		if cs.Hits == 0 {
 			vc.errorf("callsite %s: no call of %s in %s (stale clause)", cs.Callee, cs.Callee, fn.Name())
 		}
